@@ -558,7 +558,7 @@ def compare(case, val, real):
     st = analyse(case)
     if st['tie']:
         return 'tie', None
-    if diff <= F(1, 10 ** 14) * scale * st['cond']:
+    if diff <= F(1, 10 ** 13) * scale * st['cond']:
         return 'ok', 'conditioned'
     return 'diff', {'signature': '%s|coordinates' % case['op'],
                     'what': 'coordinates differ by %.3g (scale %.3g, conditioning %.3g)' % (
